@@ -57,13 +57,17 @@ PLAN = [
     "select * from nosuch.t1 join int9.t2",
     "delete from int1.t where a = 1",
 ]
-RENDER = [
-    ("select a, b from t where a = 'it''s' order by b desc limit 2", 'mysql'),
-    ("select * from t1 left join t2 on t1.a = t2.a", 'postgresql'),
-    ("select cast(a as foo) from t", 'sqlite'),
-    ("insert into t (a) values (1)", 'mysql'),
-    ("create table t (a int, b text)", 'sqlite'),
+RENDER_SQL = [
+    "select a, b from t where a = 'it''s' order by b desc limit 2",
+    "select * from t1 left join t2 on t1.a = t2.a",
+    "select cast(a as foo) from t",
+    "insert into t (a) values (1)",
+    "create table t (a int, b text)",
+    "select `order`, `User Name`, `MixedCase` from `select` where `group` = 1",
+    "update `table` set `key` = 1 where `User Name` = 'x'",
 ]
+RENDER_DIALECTS = ['mysql', 'postgresql', 'sqlite', 'mssql', 'oracle']
+RENDER = [(s, d) for s in RENDER_SQL for d in RENDER_DIALECTS]
 
 
 def all_calls():
@@ -225,13 +229,9 @@ def schedules_from_tlc(ctx, cfg, name):
 # ------------------------------------------------------------------ worker for fresh-process baselines
 def worker_main():
     order = json.loads(sys.stdin.read())
-    calls = all_calls()
-    extra = corpus_calls()
     out = {}
-    for i in order['calls']:
-        out['c%d' % i] = do_call(calls[i])
-    for i in order['corpus']:
-        out['x%d' % i] = do_call(extra[i])
+    for key, call in order['items']:
+        out[key] = do_call(tuple(call))
     sys.stdout.write(json.dumps(out))
 
 
@@ -242,6 +242,19 @@ def corpus_calls(limit=400):
     out = []
     for i, s in enumerate(ss):
         out.append(('parse', s, ('mindsdb', 'mysql', 'sqlite')[i % 3]))
+    # rejected inputs whose messages carry suggestion lists: every proper prefix of some accepted statements
+    import re as _re
+    from .corpus import lex_spans
+    n = 0
+    for s in ss:
+        sp = lex_spans('mindsdb', _re.sub(r'[\s;]+$', '', s))
+        if not sp or len(sp) < 3 or len(sp) > 14:
+            continue
+        for k in range(1, len(sp)):
+            out.append(('parse', ' '.join(s[a:b] for _, a, b in sp[:k]), 'mindsdb'))
+        n += 1
+        if n >= limit // 6:
+            break
     return out
 
 
@@ -362,7 +375,8 @@ def run(ctx):
 
     # ---- (b) histories and (c) configurations against fresh processes
     extra = corpus_calls(2000 if thorough else 300)
-    canon = {'calls': list(range(len(calls))), 'corpus': list(range(len(extra)))}
+    canon = {'items': [['c%d' % i, list(c)] for i, c in enumerate(calls)] +
+                      [['x%d' % i, list(c)] for i, c in enumerate(extra)]}
     base = fresh_process(canon, 0)
     seeds = [1, 2, 3, 7, 11, 101] if thorough else [1, 2]
     for sd in seeds:
